@@ -46,13 +46,38 @@ def parts_of(kind):
     return ARR_PARTS if kind == "arr" else VEC_PARTS
 
 
-def access_types(kind, parts=None):
+# write forms: wa = augmented assignment (`<<=`, variables `@=`), wn = attribute form (`.next =`, variables `.value =`),
+# wp = push `^=`, wP = push `.push =`; `w` = output actual of an instance.  wa/wn and wp/wP are the same IR statement.
+SIGNAL_FORMS = ["wa", "wn", "wp", "wP"]
+VAR_FORMS = ["wa", "wn"]
+CANON_FORMS = {"sig": ["wa", "wp"], "var": ["wa"]}
+DEFAULT_API = "sss"  # how the contexts A, B, C are declared: s = std.sequential / std.concurrent,
+#                      c = core cohdl.sequential_context / cohdl.concurrent_context, r = core + cohdl.reset_pushed()
+
+
+def is_write(rw):
+    return rw[0] == "w"
+
+
+def is_push(rw):
+    return rw in ("wp", "wP")
+
+
+def forms_of(kind, canonical=False):
+    if kind == "tmp":  # an explicit Temporary has no assignment operator in traced code
+        return []
+    if kind == "var":
+        return CANON_FORMS["var"] if canonical else VAR_FORMS
+    return CANON_FORMS["sig"] if canonical else SIGNAL_FORMS
+
+
+def access_types(kind, parts=None, canonical=False):
     out = []
     for part in parts or parts_of(kind):
         for pl in RW_PLACEMENTS:
             out.append((pl, part, "r"))
-            if kind != "tmp":  # an explicit Temporary has no assignment operator in traced code
-                out.append((pl, part, "w"))
+            for f in forms_of(kind, canonical):
+                out.append((pl, part, f))
         for pl, rw in FIXED_PLACEMENTS.items():
             out.append((pl, part, rw))
     return out
@@ -105,7 +130,7 @@ DECL = {
     "sig": (None, "x = Signal[BitVector[4]](Null)", "x"),
     "pin": ("xi = Port.input(BitVector[4])", None, "self.xi"),
     "pout": ("xo = Port.output(BitVector[4], default=Null)", None, "self.xo"),
-    "pinout": ("xio = Port.inout(BitVector[4])", None, "self.xio"),
+    "pinout": ("xio = Port.inout(BitVector[4], default=Null)", None, "self.xio"),
     "var": (None, "x = Variable[BitVector[4]](Null)", "x"),
     "tmp": (None, "x = Temporary[BitVector[4]](Null)", "x"),
     "arr": (None, "x = Signal[Array[BitVector[4], 2]](Null)", "x"),
@@ -113,26 +138,30 @@ DECL = {
 
 
 def stmt_of(kind, k, acc):
-    """the source statement of access number k (its own sink port s<k>)"""
+    """(source statement of access number k (its own sink port s<k>), needs `nonlocal x`)"""
     pl, part, rw = acc
     ref = DECL[kind][2]
     w = PART_WIDTH[part]
     obj = ref + PART_SUFFIX[part]
     if pl in ("IO", "CIO", "AIO"):
-        return f"Sub{w}(x=self.av{WIDTH_SUFFIX[w]}, y={obj})"
+        return f"Sub{w}(x=self.av{WIDTH_SUFFIX[w]}, y={obj})", False
     if pl == "II":
-        return f"Sub{w}(x={obj}, y=self.s{k}{WIDTH_SUFFIX[w]})"
+        return f"Sub{w}(x={obj}, y=self.s{k}{WIDTH_SUFFIX[w]})", False
     if pl == "AE":
-        return f"self.s{k}{WIDTH_SUFFIX[w]} <<= cohdl.always(~{obj})"
+        return f"self.s{k}{WIDTH_SUFFIX[w]} <<= cohdl.always(~{obj})", False
     if rw == "r":
-        return f"self.s{k}{WIDTH_SUFFIX[w]} <<= {obj}"
+        return f"self.s{k}{WIDTH_SUFFIX[w]} <<= {obj}", False
     val = f"self.av{WIDTH_SUFFIX[w]}"
-    if kind in ("var", "tmp"):
-        return f"x.value = {val}" if obj == "x" else f"{obj} @= {val}"
-    return f"x.next = {val}" if obj == "x" else f"{obj} <<= {val}"
+    var = kind in ("var", "tmp")
+    if rw == "wn":
+        return f"{obj}.{'value' if var else 'next'} = {val}", False
+    if rw == "wP":
+        return f"{obj}.push = {val}", False
+    op = {"wa": "@=" if var else "<<=", "wp": "^="}[rw]
+    return f"{obj} {op} {val}", obj == "x"  # augmented assignment to the closure variable itself
 
 
-def render(kind, accs):
+def render(kind, accs, api=DEFAULT_API):
     port_decl, local_decl, _ = DECL[kind]
     lines = [HEADER.rstrip("\n")]
     if port_decl:
@@ -142,9 +171,10 @@ def render(kind, accs):
     if local_decl:
         lines.append(ind + local_decl)
     body = {"A": [], "B": [], "C": [], "AA": [], "BA": []}
+    nonlocal_in = set()
     for k, acc in enumerate(accs):
         pl = acc[0]
-        st = stmt_of(kind, k, acc)
+        st, nl = stmt_of(kind, k, acc)
         if pl in ("IO", "II"):
             lines.append(ind + st)
         elif pl == "AE":
@@ -154,21 +184,38 @@ def render(kind, accs):
         elif pl == "CIO":
             body["C"].append(st)
         elif pl in ("AF", "CF"):
-            lines += [f"{ind}def inner{k}():", f"{ind}    {st}", f"{ind}def helper{k}():", f"{ind}    inner{k}()"]
+            lines += [f"{ind}def inner{k}():"] + ([f"{ind}    nonlocal x"] if nl else []) + [f"{ind}    {st}",
+                      f"{ind}def helper{k}():", f"{ind}    inner{k}()"]
             body[pl[0]].append(f"helper{k}()")
         else:
             body[pl].append(st)
-    for name, alw in (("A", "AA"), ("B", "BA")):
+            if nl:
+                nonlocal_in.add(CTX_OF[pl])
+    for name, alw, how in (("A", "AA", api[0]), ("B", "BA", api[1])):
         if body[name] or body[alw]:
-            lines += ["", f"{ind}@std.sequential(std.Clock(self.clk))", f"{ind}def ctx{name}():"]
+            if how == "s":
+                lines += ["", f"{ind}@std.sequential(std.Clock(self.clk))"]
+            lines += ["" if how != "s" else None, f"{ind}def ctx{name}():"]
+            if name in nonlocal_in:
+                lines.append(f"{ind}    nonlocal x")
             if body[alw]:
                 lines.append(f"{ind}    with cohdl.always:")
                 lines += [f"{ind}        {s}" for s in body[alw]]
-            lines += [f"{ind}    {s}" for s in body[name]]
+            if how == "s":
+                lines += [f"{ind}    {s}" for s in body[name]]
+            else:
+                lines.append(f"{ind}    if cohdl.rising_edge(self.clk):")
+                stmts = (["cohdl.reset_pushed()"] if how == "r" else []) + body[name]
+                lines += [f"{ind}        {s}" for s in stmts or ["pass"]]
+                lines.append(f"{ind}cohdl.sequential_context(ctx{name})")
     if body["C"]:
-        lines += ["", f"{ind}@std.concurrent", f"{ind}def ctxC():"]
+        lines += ["", f"{ind}@std.concurrent" if api[2] == "s" else None, f"{ind}def ctxC():"]
+        if "C" in nonlocal_in:
+            lines.append(f"{ind}    nonlocal x")
         lines += [f"{ind}    {s}" for s in body["C"]]
-    return "\n".join(lines) + "\n"
+        if api[2] != "s":
+            lines.append(f"{ind}cohdl.concurrent_context(ctxC)")
+    return "\n".join(l for l in lines if l is not None) + "\n"
 
 
 # ---------------------------------------------------------------------------------------------------
@@ -179,11 +226,14 @@ KIND_CHAR = {"sig": "s", "pin": "i", "pout": "o", "pinout": "b", "var": "v", "tm
 CTX_OF = {"A": "A", "AA": "A", "AE": "A", "AF": "A", "B": "B", "BA": "B", "C": "C", "CF": "C"}
 
 
-def abstract(kind, accs):
+def abstract(kind, accs, api=DEFAULT_API):
     """the protocol line of the abstract design of a placement: root 0 = object under test, 1 = av,
-    2+k = sink s<k>, further roots = signals created for always-expressions"""
+    2+k = sink s<k>, further roots = signals created for always-expressions.
+    `cohdl.reset_pushed()` (always present in std.sequential, optional with the core API) is expanded by
+    `Sequential.__init__` into an assignment of the default to every signal pushed in the context: a WRITE access"""
     kinds = [KIND_CHAR[kind], "i", "o", "o", "o"]
     body = {"A": [], "B": [], "C": []}
+    pushed = {"A": False, "B": False, "C": False}
     insts = []
     for k, (pl, part, rw) in enumerate(accs):
         sink = 2 + k
@@ -197,23 +247,30 @@ def abstract(kind, accs):
             body["A"] += [f"r0a", f"w{t}a", f"r{t}", f"w{sink}"]
         else:
             a = "a" if pl in ("AA", "BA") else ""
-            body[CTX_OF[pl]] += [f"r0{a}", f"w{sink}{a}"] if rw == "r" else [f"r1{a}", f"w0{a}"]
+            if rw == "r":
+                body[CTX_OF[pl]] += [f"r0{a}", f"w{sink}{a}"]
+            else:
+                body[CTX_OF[pl]] += [f"r1{a}", ("p0" if is_push(rw) else "w0") + a]
+                if is_push(rw) and not a:
+                    pushed[CTX_OF[pl]] = True
     toks = ["check", "kinds", "".join(kinds)]
     present = {CTX_OF[pl] for pl, _, _ in accs if pl in CTX_OF} | {"A" for pl, _, _ in accs if pl == "AIO"} | {"C" for pl, _, _ in accs if pl == "CIO"}
-    for name in ("A", "B", "C"):
+    for name, how in (("A", api[0]), ("B", api[1]), ("C", api[2])):
         if name in present:
-            toks += ["ctx", "c" if name == "C" else "s"] + body[name]
+            reset = ["w0"] if (name != "C" and how in ("s", "r") and pushed[name]) else []
+            toks += ["ctx", "c" if name == "C" else "s"] + reset + body[name]
     return " ".join(toks + insts)
 
 
 def spec_must_reject(kind, accs):
-    """the first sentence of the property, read on the placement:  returns the clause that demands rejection or None"""
+    """the first sentence of the property, read on the placement:  returns the clause that demands rejection or None.
+    Every assignment form (`<<=`, `.next`, `^=`, `.push`) drives its target."""
     if kind in ("var", "tmp"):
         users = {CTX_OF[pl] for pl, _, _ in accs if pl in CTX_OF}
         return "variable or intermediate value used by more than one context" if len(users) > 1 else None
     writers = set()
     for k, (pl, part, rw) in enumerate(accs):
-        if rw != "w":
+        if not is_write(rw):
             continue
         if kind == "pin":
             return "input port written"
@@ -254,8 +311,8 @@ def export_ir(tmpl):
     def visitor(accs, suffix):
         def op(obj, access):
             if isinstance(obj, (Signal, Variable, Temporary)):
-                w = access is AccessFlags.WRITE or access is AccessFlags.PUSH
-                accs.append(("w" if w else "r") + str(rid(obj)) + suffix)
+                c = "p" if access is AccessFlags.PUSH else ("w" if access is AccessFlags.WRITE else "r")
+                accs.append(c + str(rid(obj)) + suffix)
             return obj
         return op
 
@@ -446,42 +503,90 @@ def certificate(text, entity="W"):
 # enumeration, evaluation, reporting
 # ---------------------------------------------------------------------------------------------------
 
-TRIPLE_PARTS = {"sig": ["w", "lo", "hi"], "pin": ["w", "lo"], "pout": ["w", "lo"], "pinout": ["w", "lo"],
-                "var": ["w", "lo"], "tmp": ["w", "lo"], "arr": ["e0", "e1"]}
+TRIPLE_PARTS = {"sig": ["w", "lo", "hi"], "pin": ["lo"], "pout": ["w", "lo"], "pinout": ["lo"],
+                "var": ["w", "lo"], "tmp": ["lo"], "arr": ["e0", "e1"]}
+PAIR_COMBOS = {"arr": [("e0", "e1"), ("e0", "e0"), ("e0lo", "e0"), ("e1", "e0lo")],
+               None: [("lo", "hi"), ("w", "w"), ("w", "lo"), ("lo", "b0")]}
 
 
 def canon(accs):
     return tuple(sorted(accs))
 
 
+def contexts_of(accs):
+    return {CTX_OF[pl] for pl, _, _ in accs if pl in CTX_OF} | {"A" for pl, _, _ in accs if pl == "AIO"} | \
+        {"C" for pl, _, _ in accs if pl == "CIO"}
+
+
+def api_variants(accs, full=False):
+    """declarations of the contexts that occur: all std, all core, all core + reset_pushed, and for two contexts the
+    mixed core / std ones (full=True: the complete product)"""
+    cs = sorted(contexts_of(accs))
+    opts = {"A": "scr", "B": "scr", "C": "sc"}
+    if full:
+        combos = itertools.product(*[opts[c] for c in cs])
+    else:
+        combos = [tuple("s" for _ in cs), tuple("c" for _ in cs), tuple("r" if c != "C" else "c" for c in cs)]
+        if len(cs) >= 2:
+            combos += [tuple("c" if i == j else "s" for i in range(len(cs))) for j in range(len(cs))]
+    out = []
+    for combo in combos:
+        api = dict(zip(cs, combo))
+        v = "".join(api.get(c, "s") for c in "ABC")
+        if v not in out:
+            out.append(v)
+    return out
+
+
+def placement_pairs(kind, types, pa, pb, both_orders):
+    pls = sorted({(pl, rw) for pl, _, rw in types})
+    for i, (pl1, rw1) in enumerate(pls):
+        for (pl2, rw2) in pls[i:]:
+            yield canon(((pl1, pa, rw1), (pl2, pb, rw2)))
+            if both_orders and pa != pb and (pl1, rw1) != (pl2, rw2):
+                yield canon(((pl1, pb, rw1), (pl2, pa, rw2)))
+
+
 def core_designs(quick=True):
-    """always explored: every single access, and every pair of accesses on the part combinations
-    low/high (disjoint), whole/whole, whole/low, low/bit (overlapping); the quick tier uses fewer
-    combinations for the kinds whose decision does not depend on the part"""
+    """always explored:
+    * every single access in every assignment form, with the std API; sequential / concurrent placements of one part
+      also through the core API without and with reset_pushed();
+    * WRITER pairs (canonical forms `<<=` / `@=` and `^=`, every placement, instance outputs) on disjoint and on
+      identical parts, under every API variant of the contexts involved (api_variants);
+    * every other pair in canonical forms on 1-4 part combinations with the std API."""
     out = []
     for kind in KINDS:
-        T = access_types(kind)
-        out += [(kind, (a,)) for a in T]
-        combos = [("e0", "e1"), ("e0", "e0"), ("e0lo", "e0"), ("e1", "e0lo")] if kind == "arr" else \
-            [("lo", "hi"), ("w", "w"), ("w", "lo"), ("lo", "b0")]
+        parts = parts_of(kind)
+        for a in access_types(kind):
+            if quick and a[2] in ("wn", "wP") and a[1] not in parts[:2]:
+                continue  # the attribute forms are the same IR statement as the operators: two parts suffice
+            out.append((kind, (a,), DEFAULT_API))
+            if a[1] == parts[1] and a[0] in CTX_OF:
+                out += [(kind, (a,), v) for v in api_variants((a,))]
+        combos = PAIR_COMBOS.get(kind, PAIR_COMBOS[None])
+        T = access_types(kind, canonical=True)
+        writers = [t for t in T if is_write(t[2])]
+        signalish = kind in ("sig", "pout", "arr", "pinout")
+        n_api = {"sig": 2, "pout": 1, "arr": 1}.get(kind, 0) if quick else (4 if kind == "sig" else (2 if signalish else 0))
+        for ci, (pa, pb) in enumerate(combos[:n_api]):
+            for accs in placement_pairs(kind, writers, pa, pb, both_orders=not quick):
+                out += [(kind, accs, v) for v in api_variants(accs, full=not quick and kind == "sig" and ci < 2)]
         if quick:
-            combos = combos if kind == "sig" else (combos[:1] if kind in ("pin", "pinout", "tmp") else combos[:2])
-        placements = sorted({(pl, rw) for pl, _, rw in T})
-        for pa, pb in combos:
-            for i, (pl1, rw1) in enumerate(placements):
-                for (pl2, rw2) in placements[i:]:
-                    if kind not in ("var", "tmp") and rw1 == "r" and rw2 == "r":
+            std_combos = combos[:3] if kind == "sig" else (combos[:1] if kind in ("pin", "pinout", "tmp") else combos[1:2])
+            for pa, pb in std_combos:
+                for accs in placement_pairs(kind, T, pa, pb, both_orders=False):
+                    if kind not in ("var", "tmp") and not any(is_write(rw) for _, _, rw in accs):
                         continue  # two readers of a signal: covered by the sampled part
-                    out.append((kind, canon(((pl1, pa, rw1), (pl2, pb, rw2)))))
-                    if pa != pb and (pl1, rw1) != (pl2, rw2) and not (quick and kind != "sig"):
-                        out.append((kind, canon(((pl1, pb, rw1), (pl2, pa, rw2)))))
+                    out.append((kind, accs, DEFAULT_API))
     return out
 
 
 def all_pairs():
+    """every pair of accesses in canonical forms (std API)"""
     for kind in KINDS:
-        for p in itertools.combinations_with_replacement(access_types(kind), 2):
-            yield (kind, p)
+        parts = ["w", "lo"] if kind == "pin" else None  # every write of an input port is rejected on its own
+        for p in itertools.combinations_with_replacement(access_types(kind, parts, canonical=True), 2):
+            yield (kind, p, DEFAULT_API)
 
 
 TRIPLE_PLACEMENTS = {"A", "B", "C", "AA", "AE", "IO", "II", "CIO", "AIO"}
@@ -489,33 +594,36 @@ TRIPLE_PLACEMENTS = {"A", "B", "C", "AA", "AE", "IO", "II", "CIO", "AIO"}
 
 def all_triples():
     """helpers (AF / CF) and the second always block (BA) are the same writer as A / C / B for every check and are
-    exhaustively covered in the pairs; triples range over the remaining 9 placements"""
+    exhaustively covered in the pairs; triples range over the remaining 9 placements, reads and `<<=` / `@=` writes"""
     for kind in KINDS:
-        T = [a for a in access_types(kind, TRIPLE_PARTS[kind]) if a[0] in TRIPLE_PLACEMENTS]
+        T = [a for a in access_types(kind, TRIPLE_PARTS[kind], canonical=True)
+             if a[0] in TRIPLE_PLACEMENTS and not is_push(a[2])]
         for p in itertools.combinations_with_replacement(T, 3):
-            yield (kind, p)
+            yield (kind, p, DEFAULT_API)
 
 
 def random_design(rng, n):
+    """any kind, any assignment form, any API variant"""
     kind = rng.choice(KINDS)
     T = access_types(kind)
-    return (kind, canon(tuple(rng.choice(T) for _ in range(n))))
+    accs = canon(tuple(rng.choice(T) for _ in range(n)))
+    return (kind, accs, rng.choice(api_variants(accs, full=True)))
 
 
 def evaluate(designs):
     """compile every design with the real compiler, query the Lean model on the placement abstraction and on the
     real IR, compute the certificate.  Returns one record per design."""
-    srcs = [render(k, a) for k, a in designs]
+    srcs = [render(k, a, api) for k, a, api in designs]
     res = fork_map(task, srcs, batch=64 if len(srcs) > 256 else 8)
     lines, where = [], []
     recs = []
-    for i, ((kind, accs), src, r) in enumerate(zip(designs, srcs, res)):
+    for i, ((kind, accs, api), src, r) in enumerate(zip(designs, srcs, res)):
         if r[0] != "ok":
             raise InfraError(f"task crashed: {r[1]} {r[2] if len(r) > 2 else ''}")
         r = r[1]
-        rec = {"kind": kind, "accs": accs, "src": src, "accepted": r["ok"], "errtype": r.get("errtype"), "err": r.get("err"),
+        rec = {"kind": kind, "accs": accs, "api": api, "src": src, "accepted": r["ok"], "errtype": r.get("errtype"), "err": r.get("err"),
                "spec": spec_must_reject(kind, accs), "problems": [], "counts": None, "ir": r.get("ir")}
-        lines.append(abstract(kind, accs))
+        lines.append(abstract(kind, accs, api))
         where.append((i, "src"))
         if r["ok"]:
             rec["vhdl"] = r["vhdl"]
@@ -553,18 +661,25 @@ def violations_of(rec):
     return out
 
 
-def sig_of(cls, kind, accs):
-    return f"c07:{cls}:{kind}:" + "+".join(f"{pl}/{rw}" for pl, _, rw in accs)
+def sig_of(cls, kind, accs, api=DEFAULT_API):
+    return f"c07:{cls}:{kind}:" + "+".join(f"{pl}/{rw}" for pl, _, rw in accs) + ("" if api == DEFAULT_API else "@" + api)
 
 
 def shrink(rec, cls):
-    """smallest sub-placement that still shows a violation of class cls"""
+    """smallest sub-placement (fewest accesses, then as many contexts as possible declared through std) that still
+    shows a violation of class cls"""
     cur = rec
     progress = True
-    while progress and len(cur["accs"]) > 1:
+    while progress:
         progress = False
-        cands = [(cur["kind"], cur["accs"][:i] + cur["accs"][i + 1:]) for i in range(len(cur["accs"]))]
-        for r in evaluate(cands):
+        cands = []
+        if len(cur["accs"]) > 1:
+            cands += [(cur["kind"], cur["accs"][:i] + cur["accs"][i + 1:], cur["api"]) for i in range(len(cur["accs"]))]
+        cands += [(cur["kind"], cur["accs"], cur["api"][:i] + "s" + cur["api"][i + 1:]) for i in range(3) if cur["api"][i] != "s"]
+        # contexts that do not occur any more are always written as std
+        cands = [(k, a, "".join(ch if c in contexts_of(a) else "s" for c, ch in zip("ABC", api))) for k, a, api in cands]
+        cands = [c for c in cands if c != (cur["kind"], cur["accs"], cur["api"])]
+        for r in (evaluate(cands) if cands else []):
             if any(c == cls for c, _ in violations_of(r)):
                 cur, progress = r, True
                 break
@@ -576,17 +691,19 @@ def run(ctx: Ctx):
     ctx.rule = ("designs = one object under test (Signal / in / out / inout port / Variable / Temporary / Signal[Array]) with "
                 "<= 3 accesses, each = placement (2 sequential bodies, concurrent, always blocks, always-expression, nested "
                 "helpers, instance output / input, inline instances) x part (whole, 2 disjoint slices, bit | array elements) "
-                "x read/write; core set (all singles, all pairs on 4 part combinations) always, then "
-                "quick: random pairs+triples / thorough: all pairs and all triples over 2-3 parts; non-trivial = >= 2 accesses "
-                "with >= 1 write; distinct = distinct (kind, placement multiset)")
+                "x read / write form (<<= | @=, .next | .value, ^=, .push) x declaration of each context (std.sequential / "
+                "std.concurrent, core cohdl.sequential_context / concurrent_context without / with reset_pushed()); core set "
+                "(all singles, writer pairs under every API variant, pairs on 1-4 part combinations) always, then "
+                "quick: random pairs+triples over all forms and APIs / thorough: all pairs and all triples in canonical forms; "
+                "non-trivial = >= 2 accesses with >= 1 write; distinct = distinct (kind, placement multiset, API variant)")
     designs = core_designs(ctx.quick)
     if ctx.quick:
-        designs += [random_design(rng, 2) for _ in range(400)] + [random_design(rng, 3) for _ in range(800)]
+        designs += [random_design(rng, 2) for _ in range(450)] + [random_design(rng, 3) for _ in range(450)]
     else:
         designs += list(all_pairs()) + list(all_triples())
     seen, uniq = set(), []
     for d in designs:
-        d = (d[0], canon(d[1]))
+        d = (d[0], canon(d[1]), d[2])
         if d not in seen:
             seen.add(d)
             uniq.append(d)
@@ -599,11 +716,11 @@ def run(ctx: Ctx):
     for lo in range(0, len(designs), chunk):
         recs = evaluate(designs[lo:lo + chunk])
         for rec in recs:
-            kind, accs = rec["kind"], rec["accs"]
-            nontrivial = len(accs) >= 2 and any(rw == "w" for _, _, rw in accs)
-            ctx.case(key=(kind, accs), nontrivial=nontrivial,
+            kind, accs, api = rec["kind"], rec["accs"], rec["api"]
+            nontrivial = len(accs) >= 2 and any(is_write(rw) for _, _, rw in accs)
+            ctx.case(key=(kind, accs, api), nontrivial=nontrivial,
                      kind=f"{kind}:{len(accs)}:" + ("accepted" if rec["accepted"] else "rejected"),
-                     sample={"kind": kind, "accesses": [list(a) for a in accs], "accepted": rec["accepted"],
+                     sample={"kind": kind, "accesses": [list(a) for a in accs], "api": api, "accepted": rec["accepted"],
                              "spec_demands_rejection": rec["spec"]})
             if rec["accepted"]:
                 n_acc += 1
@@ -616,15 +733,15 @@ def run(ctx: Ctx):
             for cls, text in viol:
                 ctx.dist["violation:" + cls] += 1
                 have = collections.Counter((pl, rw) for pl, _, rw in accs)
-                if any(not (m - have) for m in minimal.get((cls, kind), [])) or n_shrunk[0] >= 24:
+                if any(not (m - have) for m in minimal.get((cls, kind), [])) or n_shrunk[0] >= 10:
                     continue  # contains an already reported minimal placement of the same class
                 n_shrunk[0] += 1
                 small = shrink(rec, cls)
                 stext = [t for c, t in violations_of(small) if c == cls][0]
                 minimal.setdefault((cls, kind), []).append(collections.Counter((pl, rw) for pl, _, rw in small["accs"]))
                 va = small.get("vhdl", "")
-                ctx.report(sig_of(cls, small["kind"], small["accs"]), stext,
-                           {"kind": small["kind"], "accesses": [list(a) for a in small["accs"]], "source": small["src"],
+                ctx.report(sig_of(cls, small["kind"], small["accs"], small["api"]), stext,
+                           {"kind": small["kind"], "accesses": [list(a) for a in small["accs"]], "api": small["api"], "source": small["src"],
                             "expected": "rejected at compile time, or one driver per signal and variables local to their process",
                             "observed": stext, "problem_class": cls,
                             "architecture": va[va.find("architecture arch_W"):][:3000]})
@@ -653,7 +770,7 @@ def run(ctx: Ctx):
     ctx.obligation("emit model: `drivers (emit d)` on the real IR = driver counts read from the emitted text",
                    n_counts == 0, detail=f"{n_counts} differences")
     for what, rec in unexplained[:3]:
-        ctx.report(f"c07:model-{what}:{rec['kind']}:" + "+".join(f"{pl}/{rw}" for pl, _, rw in rec["accs"]),
+        ctx.report(sig_of(f"model-{what}", rec["kind"], rec["accs"], rec["api"]),
                    f"the Lean model no longer describes the compiler ({what}): real accepted={rec['accepted']}, model(placement)={rec['model']}, "
                    f"model(IR)={rec.get('model_ir')}, drivers text={rec['counts']} model={rec.get('model_counts')}; no design violating the property was found for it",
                    {"theorem": "correspondence C07.checkUsage / C07.emit vs compiler", "kind": rec["kind"], "accesses": [list(a) for a in rec["accs"]],
@@ -669,7 +786,7 @@ def run(ctx: Ctx):
 def replay(ctx, data):
     r = data["replay"]
     if "accesses" in r and "kind" in r:
-        rec = evaluate([(r["kind"], tuple(tuple(a) for a in r["accesses"]))])[0]
+        rec = evaluate([(r["kind"], tuple(tuple(a) for a in r["accesses"]), r.get("api", DEFAULT_API))])[0]
     else:
         raise InfraError("replay file without a design")
     print("accepted:", rec["accepted"], "| spec demands rejection:", rec["spec"], "| model:", rec["model"])
